@@ -22,13 +22,13 @@ BUDGET = {"quick": 45, "thorough": 600}
 CHUNK = 4000
 RULE = (
     "every scenario has 1-2 cvar-objective / cvar-constraint filters mapped onto objectives/constraints (maps contain -1); "
-    "n = 1..12 realizations; percentile from {k/20, k/n, 1/3, 2/3, 0.3, 0.7, 1.0} and, in a third of the runs, its "
+    "n = 1..12 realizations (4%: 17-40, 49, 98 or 196, where p*n integer noise and unstable sorting of ties would show); exact ties in the sort key of some filters (20%); percentile from {k/20, k/n, 1/3, 2/3, 0.3, 0.7, 1.0} and, in a third of the runs, its "
     "neighbour one ulp below/above; constraint bound kinds upper-only / lower-only / equality / two-sided; NaN failure "
     "masks incl. all realizations failed; optimizer and evaluator steps. Non-trivial = a weight row was compared with the "
     "exact-rational reference; distinct = coarse scenario key + percentile."
 )
 ASSUMPTIONS = [
-    "order-dependent comparison only when the ranked values of the successful realizations are pairwise > 1e-9 apart (ties are ambiguous)",
+    "order-dependent comparison only when the ranked values of the successful realizations are pairwise > 1e-9 apart or exactly equal (near ties are ambiguous; exact ties are ranked by realization index, as a stable sort does with and without failed realizations)",
     "two-sided / unbounded constraint filters: only the order-independent invariants are asserted (the statement fixes no direction)",
     "the realization just beyond the tail may carry a weight <= 1e-12 when p*n is within 1e-9 of an integer (rounding of p*n); "
     "negative weights and weights on any other realization are violations",
